@@ -178,6 +178,8 @@ pub struct Sys {
     pub read_chunk: Option<usize>,
     /// after every event additionally poll every live task whose waker did not fire
     pub sweep: bool,
+    /// params["ids"] = [packet id, subscription id] has been applied (hook H2), once
+    pub ids_preset: bool,
 }
 
 impl Sys {
@@ -200,6 +202,7 @@ impl Sys {
             bytewise_reads: false,
             read_chunk: None,
             sweep: false,
+            ids_preset: false,
         }
     }
 
@@ -326,6 +329,18 @@ impl Sys {
         self.m.run();
         self.w.cmd(CtxCmd::Run);
         self.sync();
+        // "identifier flavour": the two counters start next to a boundary of their encodings
+        // (packet identifier 0x00ff/0x0100, 0x7fff/0x8000, the wrap; subscription identifier 127/128,
+        // 16383/16384) instead of at 1 - nothing in any property depends on the values being small.
+        if !self.ids_preset && !self.dead {
+            if let Some(a) = self.params["ids"].as_array() {
+                let pid = a[0].as_u64().unwrap() as u16;
+                let sid = a[1].as_u64().unwrap() as u32;
+                self.w.handle().verif_set_ids(pid, sid);
+                self.events.push(format!("PresetCounters({}, {})", pid, sid));
+                self.ids_preset = true;
+            }
+        }
     }
 
     /// Connection "flavours": CONNECT options and CONNACK contents that must not matter for the
